@@ -494,6 +494,42 @@ example : Square 3 [[2, 0, 1], [1, 3, 0], [0, 1, 2]] := by
   simp only [List.mem_cons, List.not_mem_nil, or_false] at hr
   rcases hr with rfl | rfl | rfl <;> rfl
 
+/-- **Matthews correlation of a confusion matrix, in terms of the samples**: with `n` samples, `c`
+of them predicted correctly, `p_l` predicted as class `l` and `t_l` truly of class `l`, `mcc()` of
+the matrix built by `confusion_matrix` is `(c·n − Σ_l p_l·t_l) / √(Σ_l p_l(n−p_l)) / √(Σ_l t_l(n−t_l))` -/
+theorem mcc_confusion {L : Type} [LinearOrder L] (cs : List L) (hnd : cs.Nodup) (pairs : List (L × L))
+    (hall : ∀ p ∈ pairs, p.1 ∈ cs ∧ p.2 ∈ cs) :
+    (mcc (countLoop cs pairs) : ℝ) =
+      (((pairs.filter fun p => p.1 = p.2).length : ℝ) * (pairs.length : ℝ) -
+          (cs.map fun c => ((pairs.filter fun p => p.1 = c).length : ℝ) *
+            ((pairs.filter fun p => p.2 = c).length : ℝ)).sum) /
+        Real.sqrt ((cs.map fun c => ((pairs.filter fun p => p.1 = c).length : ℝ) *
+          ((pairs.length : ℝ) - ((pairs.filter fun p => p.1 = c).length : ℝ))).sum) /
+        Real.sqrt ((cs.map fun c => ((pairs.filter fun p => p.2 = c).length : ℝ) *
+          ((pairs.length : ℝ) - ((pairs.filter fun p => p.2 = c).length : ℝ))).sum) := by
+  rw [mcc_multiclass cs.length _ (countLoop_square cs pairs), cm_diag_count cs hnd pairs hall,
+    cm_sum cs hnd pairs hall]
+  have e1 := range_map_eq_map cs
+    (fun a => ((rowSum (countLoop cs pairs) a : Nat) : ℝ) * ((colSum (countLoop cs pairs) a : Nat) : ℝ))
+    (fun c => ((pairs.filter fun p => p.1 = c).length : ℝ) * ((pairs.filter fun p => p.2 = c).length : ℝ))
+    (fun a c hc => by rw [cm_row_count cs hnd pairs hall a c hc, cm_col_count cs hnd pairs hall a c hc])
+  have e2 := range_map_eq_map cs
+    (fun a => ((rowSum (countLoop cs pairs) a : Nat) : ℝ) *
+      ((pairs.length : ℝ) - ((rowSum (countLoop cs pairs) a : Nat) : ℝ)))
+    (fun c => ((pairs.filter fun p => p.1 = c).length : ℝ) *
+      ((pairs.length : ℝ) - ((pairs.filter fun p => p.1 = c).length : ℝ)))
+    (fun a c hc => by rw [cm_row_count cs hnd pairs hall a c hc])
+  have e3 := range_map_eq_map cs
+    (fun a => ((colSum (countLoop cs pairs) a : Nat) : ℝ) *
+      ((pairs.length : ℝ) - ((colSum (countLoop cs pairs) a : Nat) : ℝ)))
+    (fun c => ((pairs.filter fun p => p.2 = c).length : ℝ) *
+      ((pairs.length : ℝ) - ((pairs.filter fun p => p.2 = c).length : ℝ)))
+    (fun a c hc => by rw [cm_col_count cs hnd pairs hall a c hc])
+  rw [e1, e2, e3]
+
+example : ([0, 1, 2] : List Nat).Nodup ∧ ∀ p ∈ [(0, 1), (2, 2), (1, 1)], p.1 ∈ [0, 1, 2] ∧ p.2 ∈ [0, 1, 2] := by
+  decide
+
 end Mcc
 
 section PermReg
